@@ -141,6 +141,20 @@ def _run_xor(ctx, spec, rng):
             prob[i, i] = prob[i, (i + 1) % n] = 1 / (2 * n)
             pred[i, (i + 1) % n] = 1
         kind = "oddcycle"
+    elif spec[1] % 10 == 7 or spec[1] == 2:
+        # structured, non-generic games: exactly symmetric under exchanging the players (prob and pred symmetric), diagonal of the signed cost
+        # matrix zero or positive, cost matrix indefinite.  spec 2: "answers must differ on distinct questions" on three questions (value 1)
+        n = 3 if spec[1] == 2 else int(rng.integers(3, 6))
+        pred = np.triu(rng.integers(0, 2, size=(n, n)), 1) if spec[1] != 2 else np.triu(np.ones((n, n), dtype=int), 1)
+        if spec[1] != 2 and pred.sum() == 0:
+            pred[0, 1] = 1
+        pred = pred + pred.T
+        w_ = np.triu(rng.random((n, n)) + 0.05, 1) if (spec[1] // 10) % 2 else np.triu(np.ones((n, n)), 1)
+        prob = w_ + w_.T
+        if (spec[1] // 20) % 2 and spec[1] != 2:
+            prob = prob + np.diag(rng.random(n) * 0.3)  # some weight on equal questions (answers must agree there)
+        prob = prob / prob.sum()
+        kind = "symmetric-zero-diagonal" if not np.diag(prob).any() else "symmetric-positive-diagonal"
     else:
         prob, pred, kind = xor_instance(rng, spec[1])
     x, y = prob.shape
